@@ -411,7 +411,7 @@ def topological_sort(nodes):
 
     def find_first_dep(dependency, start_index):
         for i, n in enumerate(islice(nodes, start_index, None), start_index):
-            if n.name == dependency:
+            if n.name == dependency and not isinstance(n, Include):
                 return i
 
     def model_sort_rotate():
@@ -428,10 +428,12 @@ def topological_sort(nodes):
                 if found_index:
                     nodes.insert(index, nodes.pop(found_index))
                 return True
-        known.add(node.name)
+        if not isinstance(node, Include):
+            """ an include is named after its file: that is not a definition of that name """
+            known.add(node.name)
 
     known = set(x + y for x in "uir" for y in ["8", "16", "32", "64"])
-    available = set(node.name for node in nodes)
+    available = set(node.name for node in nodes if not isinstance(node, Include))
     """ an enumerator is delivered by the enum that defines it """
     enumerator_owners = dict((member.name, node.name) for node in nodes if isinstance(node, Enum)
                              for member in node.members)
